@@ -196,6 +196,22 @@ class Interp:
                 self.flags.add("near")
                 if self.case.get("time_unit"):
                     self.flags.add("near_rescaled_time_unit")
+            elif name == "clobber":
+                # the optimizer works on copies of the caller's data and weights (DataProvider: "get a copy of data"): the caller
+                # overwrites its own arrays - afterwards every vector evaluated before still gives the same penalty
+                done = 0
+                for ds in self.scheme.data.values():
+                    for var in ("data", "weight"):
+                        if var in ds and ds[var].values.flags.writeable:
+                            ds[var].values[...] = ds[var].values * op[1] + 1.0
+                            done += 1
+                if done:
+                    self.snap = snapshot(self.scheme)
+                    self.flags.add("caller_overwrote_its_data")
+                    x, v0 = self.seen[-1]
+                    with expect_ok("history.reevaluation_of_a_good_vector_raises"):
+                        v1 = self.cap(x)
+                    self._compare(x, v0, v1, "history.value_depends_on_what_the_caller_did_to_its_data_afterwards")
             elif name == "raise":
                 x = self.x0.copy()
                 if x.size == 0:
@@ -315,6 +331,10 @@ class ObjectiveMachine(RuleBasedStateMachine):
     @rule(i=st.integers(0, 30), j=st.integers(0, 7), r=st.sampled_from([1e-6, -1e-6, 1e-8, 1e-10]))
     def near(self, i, j, r):
         self._do(["near", i, j, r])
+
+    @rule(f=st.sampled_from([0.0, 0.5, -2.0]))
+    def clobber(self, f):
+        self._do(["clobber", f])
 
     @rule(i=st.integers(0, 30))
     def fresh(self, i):
